@@ -446,4 +446,38 @@ pub fn run(ctx: &mut Ctx) {
     ctx.require_class("gain / offset adaptors over the full value range");
     let wc = wide_cases(ctx.sub_seed("wide"));
     ctx.enumerate("gain-offset-adaptors-full-range", false, wc.into_iter(), check_wide);
+    // delay(k) for k beyond 32 bits: the first frames are silence and the source is not pulled for any of them
+    #[derive(Clone, Debug, Serialize, Deserialize)]
+    struct LongDelay {
+        k: u64,
+        stereo: bool,
+    }
+    let cases: Vec<LongDelay> = [1u64 << 32, (1 << 32) + 3, 1 << 33, (1 << 40) + 1, u64::MAX].iter().flat_map(|&k| [LongDelay { k, stereo: false }, LongDelay { k, stereo: true }]).collect();
+    ctx.enumerate("delay-longer-than-2^32-frames", true, cases.into_iter(), |c: &LongDelay, st: &mut Stats| {
+        st.nt(true);
+        ensure!(c.k <= usize::MAX as u64, "bad case: delay does not fit usize");
+        let pulls = std::rc::Rc::new(std::cell::Cell::new(0u64));
+        let p = pulls.clone();
+        macro_rules! go {
+            ($frame:expr, $eq:expr) => {{
+                let mut d = dasp_signal::gen_mut(move || {
+                    p.set(p.get() + 1);
+                    $frame
+                })
+                .delay(c.k as usize);
+                for i in 0..6 {
+                    ensure!(!d.is_exhausted(), "delay({}): exhausted before frame {}", c.k, i);
+                    let f = d.next();
+                    ensure!(f == $eq, "delay({}): frame {} is {:?}, expected the leading silence", c.k, i, f);
+                    ensure!(pulls.get() == 0, "delay({}): the source was pulled {} times during the first {} frames of the leading silence", c.k, pulls.get(), i + 1);
+                }
+            }};
+        }
+        if c.stereo {
+            go!([0.5f32, -0.25], [0.0f32, 0.0]);
+        } else {
+            go!(1234i16, 0i16);
+        }
+        Ok(())
+    });
 }
